@@ -189,6 +189,17 @@ impl Ctx {
     fn cfg_s(&self, k: &str, d: &str) -> String {
         self.cfg.get(k).and_then(Value::as_str).unwrap_or(d).to_string()
     }
+    /// outcome "fclose": the handler itself closes the connection (MqttSink::force_close) before it returns
+    fn handler_close(&self, out: &Outcome) {
+        if out.res == "fclose" {
+            self.emit(Ev::new("close").k("force"));
+            match &*self.sink.borrow() {
+                SinkH::V3(s) => s.force_close(),
+                SinkH::V5(s) => s.force_close(),
+                SinkH::None => {}
+            }
+        }
+    }
     /// wait for the outcome of handler `h`: pre-armed (completes inside the call) or gated
     async fn outcome(&self, h: i64, gated: bool, ctl: bool) -> Outcome {
         let q = if ctl { &self.armed_ctl } else { &self.armed };
@@ -442,6 +453,7 @@ async fn pub5r(ctx: Rc<Ctx>, conn: i64, res: i64, mut p: v5::Publish) -> Result<
         read_payload!(ctx, h, p, out);
     }
     g.done.set(true);
+    ctx.handler_close(&out);
     ctx.emit(Ev::new("h_end").s(h).k(out.res.clone()).r(out.code));
     match out.res.as_str() {
         "err" => Err(TestErr::Fail),
@@ -613,6 +625,7 @@ async fn pub3(ctx: Rc<Ctx>, mut p: v3::Publish) -> Result<(), TestErr> {
         read_payload!(ctx, h, p, out);
     }
     g.done.set(true);
+    ctx.handler_close(&out);
     ctx.emit(Ev::new("h_end").s(h).k(out.res.clone()).r(out.code));
     match out.res.as_str() {
         "err" | "nack" => Err(TestErr::Fail),
